@@ -101,7 +101,7 @@ def obligations(tier, seed):
                          "vbi_raw_vbi_image (native, tables)"],
                 bounds="all payloads of one line; (service, sampling rate, samples per line, offset, pixel format) enumerated on the grid - rate/offset "
                        "are sampled, not proved; one service requested at a time; strict = 0; %d samples per line, format %s; VPS/WSS: exhaustive "
-                       "case split on the first transmitted payload bit (FIXVAL on the grid)" % (spl, pix),
+                       "case split on the first transmitted payload bit (FIXVAL on the grid); RGB16: red and blue bits 0, other formats: non-luma/green bytes arbitrary" % (spl, pix),
                 outside="noise, non-nominal amplitude, rates/offsets between grid points, several services on one frame, more than two rows, "
                         "Teletext D 625 (needs lines sampled beyond 63 us), 2xCaption, "
                         "the legacy vbi_raw_decode wrapper (mutex + the same vbi3 decoder)",
